@@ -73,7 +73,8 @@ def value(code, k):
     if k % 9 == 8:
         v = [lo, hi][k % 2]
     else:
-        v = lo + (k * 37 + 11) % (hi - lo + 1) if code in (12, 15) else lo + k * ((hi - lo) // 257) + 3
+        base = (k * 37 + 11) % (hi - lo + 1) if code in (12, 15) else (k % 257) * ((hi - lo) // 257) + 3
+        v = lo + base if k % 2 == 0 else hi - base      # both halves of the range: values with and without the top bit
     return struct.pack(fmt, v), v
 
 
@@ -347,7 +348,9 @@ def channel_sets(chans):
 
 def run_ops(lp, ops, res, shape):
     """Depth-1 exploration: every op on a fresh index (plus index check once)."""
-    s0 = System(lp)
+    s0 = bfs.make_or_violation(lambda: System(lp), res, {'lp': lp}, 'indexing a conformant file')
+    if s0 is None:
+        return
     for sig, msg in check_index(s0):
         res.violate(sig, {'lp': lp, 'history': []}, msg)
     system = s0
@@ -493,7 +496,13 @@ def run_shard(shard, tier):
 
 def replay(case):
     lp = case['lp']
-    s0 = System(lp)
+    try:
+        s0 = System(lp)
+    except Exception as err:  # noqa
+        if not bfs.library_raised(err):
+            raise
+        return [{'sig': {'kind': 'construction_raises', 'exc': type(err).__name__}, 'case': case,
+                 'msg': 'indexing a conformant file raised %s: %s' % (type(err).__name__, err)}]
     bad = check_index(s0) if not case.get('history') else []
     bad += bfs.replay_history(lambda: System(lp), step, case.get('history', []))
     return [{'sig': s, 'case': case, 'msg': m} for s, m in bad]
